@@ -96,6 +96,7 @@ type Cond struct {
 	ErrTypes []int `json:"errtypes,omitempty"` // error type ids
 	Results  []int `json:"results,omitempty"`  // result values
 	Preds    []int `json:"preds,omitempty"`    // predicate ids
+	Variadic bool  `json:"variadic,omitempty"` // register all errors / error types with one call instead of one call each
 }
 
 func (c Cond) empty() bool {
